@@ -500,6 +500,10 @@ class Builtins(OpsMixin, LoopsMixin):
         obj = ex.deref(p, obj)
         if isinstance(obj, VObj):
             return [p1 for p1, _ in self._dunder(ex, p, obj, "__delitem__", [idx], node)]
+        if isinstance(obj, VOpaque):
+            c = self.opaque_contract(ex, obj, "__delitem__")
+            if c is not None:
+                return [p1 for p1, _ in ex.apply_contract(p, c, [idx], {}, node, self_val=obj)]
         raise Unsupported("del item on %r at line %s" % (obj, node.lineno))
 
     # ------------------------------------------------------------------
